@@ -45,6 +45,7 @@
 -/
 import GoblVerif.Proofs.CalcErrorMore
 import GoblVerif.Proofs.CalcErrorInc
+import GoblVerif.Proofs.CalcErrorGroups
 import GoblVerif.Spec.C01
 import GoblVerif.Generated.CalcFacts
 import GoblVerif.Proofs.CalcError
@@ -1259,6 +1260,80 @@ example : inDocI incDoc = true ∧ inDocC incDoc = false ∧
     ((calculate exactOps incDoc).toOption.bind (·.totals)).map (fun t => (t.tax, t.totalWithTax, t.advances, t.due)) =
       some (⟨532, 2⟩, ⟨3424, 2⟩, some ⟨1027, 2⟩, some ⟨2397, 2⟩) := by
   refine ⟨by decide, by decide, by decide, by decide, by decide⟩
+
+/-! ## the rows of the tax summary as presented figures
+
+For a document of the class `DocTI` (`DocCI` without the conditions on rounding and advances; with or
+without an included category).  The exact quantities are built from the exact rows of
+`Spec.C01.exactQ` (`exactRowsW`: exact line totals, exact document discounts negated, exact document
+charges, each with its combos; the included tax taken out by an exact division, `remQ`):
+`catExactQ selP d k` = Σ rows Σ combos of category `k`, row × percentage (for the included category
+this is `(exactQ d).taxIncluded`: `catExactQ_included`), `catExactQ selS d k` the same with the
+surcharge percentages, `grpExactQ d k key` = Σ rows, once per combo of category `k` and group key
+`key` (extensions, country, percentage, surcharge percentage: `Spec.C02.keyOfRate`). -/
+
+/-- every category row: `amount` is the half-away rounding at currency precision of the working
+amount (kept as `precise`), which is within (number of rate groups of the category + the rows'
+carried weight `rowsWL kN`) half-units of the working precision of the exact category amount; the
+category surcharge likewise against the exact surcharge -/
+theorem calc_tax_category_rows_spec (ret : String → Bool) (d : Doc) (out : Out) (t : Totals) (hd : DocTI ret d)
+    (hcalc : calculate exactOps d = .ok out) (ht : out.totals = some t)
+    (tx : TaxTotal) (htx : t.taxes = some tx) (k : String) (ct : CatTotal)
+    (hf : tx.cats.find? (fun ct => ct.code == k) = some ct) :
+    presents d.c ct.amount ct.precise.toRat ∧
+    |ct.precise.toRat - catExactQ selP d k| ≤
+      ((ct.rates.length + rowsWL (kN (some k)) d.includes d : ℕ) : ℚ) * halfUlp (d.c + 2) ∧
+    ∃ ws : Option Amount, ct.surcharge = ws.map (·.rescaleX d.c) ∧
+      |optQ ws - catExactQ selS d k| ≤
+        ((ct.rates.length + rowsWL (kN (some k)) d.includes d : ℕ) : ℚ) * halfUlp (d.c + 2) :=
+  cat_rows_shown d out t hd hcalc ht tx htx k ct hf
+
+/-- every rate-group row: the base is the rounding of a working base within `Wb = rowsWL gN`
+half-units of the exact base of the group (sums add no rounding point); the amount is the rounding
+of a working amount within `1 + |percentage|·Wb` half-units of exact base × percentage; the
+surcharge within `1 + |surcharge percentage|·Wb` of exact base × surcharge percentage — with the
+actual percentages, not their bound of 100 % -/
+theorem calc_tax_group_rows_spec (ret : String → Bool) (d : Doc) (out : Out) (t : Totals) (hd : DocTI ret d)
+    (hcalc : calculate exactOps d = .ok out) (ht : out.totals = some t)
+    (tx : TaxTotal) (htx : t.taxes = some tx) (ct : CatTotal) (hct : ct ∈ tx.cats)
+    (rt : RateTotal) (hrt : rt ∈ ct.rates) :
+    ∃ bw : Amount, presents d.c rt.base bw.toRat ∧
+      |bw.toRat - grpExactQ d ct.code (Spec.C02.keyOfRate rt)| ≤
+        (rowsWL (gN ct.code (Spec.C02.keyOfRate rt)) d.includes d : ℚ) * halfUlp (d.c + 2) ∧
+      (∀ p, rt.percent = some p → ∃ aw : Amount, presents d.c rt.amount aw.toRat ∧
+        |aw.toRat - grpExactQ d ct.code (Spec.C02.keyOfRate rt) * p.amount.toRat| ≤
+          (1 + |p.amount.toRat| * (rowsWL (gN ct.code (Spec.C02.keyOfRate rt)) d.includes d : ℚ)) * halfUlp (d.c + 2)) ∧
+      (∀ p sp sa, rt.percent = some p → rt.surcharge = some (sp, sa) →
+        ∃ sw : Amount, presents d.c sa sw.toRat ∧
+        |sw.toRat - grpExactQ d ct.code (Spec.C02.keyOfRate rt) * sp.amount.toRat| ≤
+          (1 + |sp.amount.toRat| * (rowsWL (gN ct.code (Spec.C02.keyOfRate rt)) d.includes d : ℚ)) * halfUlp (d.c + 2)) :=
+  group_rows_shown d out t hd hcalc ht tx htx ct hct rt hrt
+
+/-- non-vacuity of the two row theorems: `incDoc` (prices including VAT) and `surDoc` (a surcharge)
+are of the class.  `incDoc`: VAT shows 5.68 from the working amount 5.6791 (exact 5.67909147…, weight
+3 groups + 14 carried); its groups: standard base 25.84 (exact (31.7625 − 0.50)/1.21 = 25.83677…),
+amount 5.43 (exact 5.42572…); reduced base 2.41 (exact 2.6664/1.105 = 2.41303…), amount 0.25 (exact
+0.25336…); exempt base 0.67; retained IRPF base 2.41, amount 0.36 (exact 0.36195…).  `surDoc`: base
+23.33 (exact 23.331), amount 4.90 (exact 4.89951), surcharge 1.21 (exact 1.213212) -/
+example : DocTI (retOf incDoc) incDoc ∧ DocTI (retOf surDoc) surDoc ∧
+    rowsWL (kN (some "VAT")) incDoc.includes incDoc = 14 ∧
+    (((calculate exactOps incDoc).toOption.bind (·.totals)).bind (·.taxes)).map
+      (fun tx => tx.cats.map (fun ct => (ct.code, ct.amount, ct.precise))) =
+      some [("VAT", ⟨568, 2⟩, ⟨56791, 4⟩), ("IRPF", ⟨36, 2⟩, ⟨3620, 4⟩)] ∧
+    (((calculate exactOps incDoc).toOption.bind (·.totals)).bind (·.taxes)).map
+      (fun tx => tx.cats.map (fun ct => ct.rates.map (·.base))) =
+      some [[⟨2584, 2⟩, ⟨241, 2⟩, ⟨67, 2⟩], [⟨241, 2⟩]] ∧
+    (((calculate exactOps incDoc).toOption.bind (·.totals)).bind (·.taxes)).map
+      (fun tx => tx.cats.map (fun ct => ct.rates.map (·.amount))) =
+      some [[⟨543, 2⟩, ⟨25, 2⟩, ⟨0, 2⟩], [⟨36, 2⟩]] ∧
+    (((calculate exactOps surDoc).toOption.bind (·.totals)).bind (·.taxes)).map
+      (fun tx => tx.cats.map (fun ct => (ct.amount, ct.surcharge, ct.rates.map (·.base)))) =
+      some [(⟨490, 2⟩, some ⟨121, 2⟩, [⟨2333, 2⟩])] ∧
+    (((calculate exactOps surDoc).toOption.bind (·.totals)).bind (·.taxes)).map
+      (fun tx => tx.cats.map (fun ct => (ct.rates.map (·.amount), ct.rates.map (fun rt => rt.surcharge.map (·.2))))) =
+      some [([⟨490, 2⟩], [some ⟨121, 2⟩])] :=
+  ⟨(inDocI_sound incDoc (by decide)).tax, (inDocI_sound surDoc (by decide)).tax, by decide, by decide, by decide,
+    by decide, by decide, by decide⟩
 
 /-! ## pinned source shapes (regenerated facts; tools/pin_calc_expect.py) -/
 
